@@ -192,6 +192,10 @@ def symbolic_app_state(ctx, ex, app, tag, n_arrays=2):
         sa = ctx.int(f"{tag}saddr0", -2 ** 31, 2 ** 31 - 1)
         sl = ctx.int(f"{tag}slen0", 0, None)
         SL = M.SymList(f"{tag}sarr0", length=sl.t)
+        for k in range(PIN_ARR):
+            v = ctx.optint(f"{tag}sarr0_{k}")       # named, so that a counter-model determines the host-visible array too
+            it.pc.append(z3.Implies(sl.t > k, z3.And(z3.Select(SL.isnone, k) == v.isnone,
+                                                     z3.Implies(z3.Not(v.isnone), z3.Select(SL.val, k) == v.val))))
         ex._shared_memories[app]._arrays._arrays = M.SymKeyDict(f"{tag}SA", [(sa, SL)])
     else:
         r = ctx.rng
@@ -219,7 +223,12 @@ def symbolic_app_state(ctx, ex, app, tag, n_arrays=2):
         sl = ctx.int(f"{tag}slen0", 0, 3) if r is not None else ctx.int(f"{tag}slen0", 0, None)
         if sl > 100000:
             raise Skip()
-        ex._shared_memories[app]._arrays._arrays = {sa: [None if r is None else rv() for _ in range(sl)]}
+        sarr = [None if r is None else rv() for _ in range(sl)]
+        for k in range(PIN_ARR):
+            v = ctx.optint(f"{tag}sarr0_{k}", -40, 40) if r is not None else ctx.optint(f"{tag}sarr0_{k}")
+            if k < sl:
+                sarr[k] = v
+        ex._shared_memories[app]._arrays._arrays = {sa: sarr}
 
 
 def pin_register(ctx, ex, app, reg, name, shared=False):
